@@ -101,6 +101,16 @@ def replay_box(arg):
                     o_.state.orientation = Quaternion(axis=[0, 0, 1], radians=y_)
                     o_.frame_id = FrameID.MAP
                 try:
+                    # the ego pose comes out of a scratch array that the caller overwrites right after building the transform
+                    from perception_eval.common.transform import HomogeneousMatrix as _HM, TransformDict as _TD
+                    import numpy as _np
+
+                    buf = _np.array(ego.t, dtype=float)
+                    tdb = _TD([_HM(buf, ego.q, src=FrameID.BASE_LINK, dst=FrameID.MAP)])
+                    buf += 1234.5
+                    pdb = PlaneDistanceMatching(Am, Bm, transforms=tdb).value
+                    if not any(abs(pdb * pdb - v) < 1e-8 for v in plane):
+                        mism.append(("plane-distance:map-storage:callers-buffer", "plane distance^2 %r after the caller reused the array its ego pose came from, specification %s" % (pdb * pdb, plane), rep))
                     pdm = PlaneDistanceMatching(Am, Bm, transforms=ego.transforms()).value
                     if not any(abs(pdm * pdm - v) < 1e-8 for v in plane):
                         mism.append(("plane-distance:map-storage", "plane distance^2 %r of the pair stored in map not among specification values %s" % (pdm * pdm, plane), rep))
